@@ -1,6 +1,7 @@
 SPECIFICATION Spec
 CONSTANTS
   MaxRunes = 4
+  MaxCalls = 2
   Use = {1, 2, 3, 4, 5, 6, 7}
   BufInit = 10
   UTFMax = 4
